@@ -517,7 +517,10 @@ class HStorage(Handler):
             return
         if not math.isfinite(exp):
             return
-        if abs(result - exp) > cf.q + 1e-12 * abs(exp):
+        # (what comes out of storage keeps what the storage unit resolves - one stored digit, expressed in the requested unit -
+        # where that is finer than a digit of the requested unit: 1.2345e-5 uL is 1.2345e-14 kL, not 1.23e-14; DESIGN 4)
+        quantum = cf.q * min(1.0, sp / R.PREFIX[p]) if self.direction == 'from' else cf.q
+        if abs(result - exp) > quantum + 1e-12 * abs(exp):
             M.violate(['C06', 'C18'], 'CONV', f'C06:storage_conversion_wrong:{self.direction}:{b}',
                       {'value': v, 'unit': u, 'got': result, 'expected': exp, 'storage': (cf.mol_unit, cf.vol_unit)})
 
